@@ -270,6 +270,9 @@ func c06R1(c *Ctx, rule string) {
 			kept = append(kept, e)
 		}
 		what := dest(bf.Val)
+		if fv := storedFieldOf(bf.Val); fv != nil {
+			what = fv.Name()
+		}
 		feeds := func(v ssa.Value) bool {
 			if v.Referrers() == nil {
 				return false
@@ -413,7 +416,15 @@ func c06R3(c *Ctx, rule string) {
 							hi, _ = intConst(sl.High)
 						}
 						if src != nil {
-							got[fv.Name()] = fmt.Sprintf("%s[%d:%d]", roleName(src), lo, hi)
+							// the destination under the name the frozen table knows it by (the carrier struct's fields may
+						// have been renamed)
+						name := fv.Name()
+						if fa, isFA := st.Addr.(*ssa.FieldAddr); isFA {
+							if on := namedOf(fa.X.Type()); on != nil {
+								name = canonFieldName(on, fv)
+							}
+						}
+						got[name] = fmt.Sprintf("%s[%d:%d]", roleName(src), lo, hi)
 						}
 					}
 				}
